@@ -126,6 +126,10 @@ class TypeParser:
                 return ('tuple', tuple(P(e) for e in elts))
             if bname in ('list', 'List', 'Sequence', 'Iterable', 'Collection'):
                 return ('seq', P(elts[0]), 'list' if bname in ('list', 'List') else 'tuple')
+            from . import containers   # containers
+            ct = containers.parse_generic(self, bname, elts, P)
+            if ct is not None:
+                return ct
             if bname == 'DefaultOr':
                 return union(P(elts[0]), DEFAULT_T)
             if bname == 'Literal':
